@@ -331,6 +331,14 @@ pub fn gen_project(rng: &mut Rng, cfg: &DocCfg) -> Vec<(String, Doc)> {
         let pkg: Vec<String> = rng.pick(PACKAGES).iter().map(|s| (*s).to_owned()).collect();
         // sometimes a project item carries the simple name of an Android built-in (in its own package)
         let name = if rng.chance(1, 8) { (*rng.pick(BUILTIN_SIMPLE)).to_owned() } else { (*rng.pick(ITEM_NAMES)).to_owned() };
+        if rng.chance(1, 12) {
+            // ... or even its full qualified name: the project defines `android.os.IBinder` itself
+            // (a key that is both a project item and a built-in, importable like any other)
+            let mut q = split(*rng.pick(BUILTIN_QUALIFIED));
+            let n = q.pop().unwrap();
+            headers.push((q, n, gen_kind(rng)));
+            continue;
+        }
         headers.push((pkg, name, gen_kind(rng)));
     }
     let keys: Vec<String> = headers.iter().map(|(p, n, _)| format!("{}.{}", p.join("."), n)).collect();
